@@ -12,6 +12,9 @@ import os
 import vf
 
 REQS = [{"mid": 1, "typ": "CON"}, {"mid": 2, "typ": "NON"}, {"mid": 10, "typ": "CON"}, {"mid": 11, "typ": "NON"}]
+# the same requests with other methods: every second history uses POST / PUT / FETCH / iPATCH (RFC 8132 methods are handed to
+# the handler like any request, and their duplicates are duplicates)
+REQS2 = [dict(r, code=c) for r, c in zip(REQS, (5, 7, 2, 6))]
 
 
 def run(ctx):
@@ -51,6 +54,10 @@ def run(ctx):
             stim.append({"t": len(stim) + 1, "reqs": REQS, "steps": steps, "hijack": len(stim) % 2 == 1})
     if not stim:
         raise vf.Machinery("no behaviours generated")
+    for k, s_ in enumerate(stim):
+        if k % 2 == 1:
+            s_["reqs"] = REQS2
+    ctx.cov["histories_with_other_methods"] = sum(1 for s_ in stim if s_["reqs"] is REQS2)
     spath = os.path.join(ctx.work, "stimuli.ndjson")
     vf.write_ndjson(spath, stim)
     out = os.path.join(ctx.work, "traces.ndjson")
